@@ -350,3 +350,16 @@ def _(c):
     node = eph.interpolate(pts[1].date)
     c.ensure("node_in_that_frame_and_form", node.frame.name == frame and node.form.name == form
              and bool(np.allclose(np.asarray(node, dtype=float), np.asarray(pts[1], dtype=float), rtol=1e-9, atol=1e-9)))
+    # the ephemeris changed in place (all its points converted to another frame, then to another form) AFTER it has been interpolated: a node still returns the stored
+    # point -- as it is now -- and a point in between is what a fresh ephemeris of the converted points gives
+    other_frame = "EME2000" if frame != "EME2000" else "ITRF"
+    eph.frame = other_frame
+    node = eph.interpolate(pts[1].date)
+    stored = np.asarray(eph[1], dtype=float)
+    c.ensure("after_frame_change.node_is_the_stored_point", node.frame.name == other_frame and bool(np.allclose(np.asarray(node, dtype=float), stored, rtol=1e-9, atol=1e-6)))
+    fresh = Ephem([p_.copy() for p_ in eph], method=method, order=order)
+    c.ensure("after_frame_change.between_nodes", bool(np.allclose(np.asarray(eph.interpolate(q), dtype=float), np.asarray(fresh.interpolate(q), dtype=float), rtol=1e-9, atol=1e-6)))
+    other_form = "cartesian" if form != "cartesian" else "spherical"
+    eph.form = other_form
+    node = eph.interpolate(pts[1].date)
+    c.ensure("after_form_change.node_is_the_stored_point", node.form.name == other_form and bool(np.allclose(np.asarray(node, dtype=float), np.asarray(eph[1], dtype=float), rtol=1e-9, atol=1e-6)))
